@@ -24,7 +24,7 @@ Traces == Batch.traces
 VARIABLES t, i
 
 ScnOf(j, D) == [hosts |-> j.hosts, conts |-> j.conts, inst |-> j.inst, paths |-> j.paths,
-                data |-> j.data, defects |-> D]
+                data |-> j.data, kidx |-> SetOf(j.kidx), defects |-> D]
 
 CanonPost(S, j) ==
   [nodes  |-> [p \in DOMAIN j.nodes |-> [d |-> j.nodes[p].d, o |-> j.nodes[p].o]],
@@ -32,7 +32,8 @@ CanonPost(S, j) ==
    queue  |-> [h \in HostSet(S) |-> j.queue[h]],
    active |-> [h \in HostSet(S) |-> SetOf(j.active[h])],
    sess   |-> [h \in HostSet(S) |-> j.sess[h]],
-   next   |-> [h \in HostSet(S) |-> j.next[h]]]
+   next   |-> [h \in HostSet(S) |-> j.next[h]],
+   linger |-> SetOf(j.linger)]
 
 (* the ZooKeeper call the request in flight on h is about to make (the thread *)
 (* is stopped at it), <<>> if none                                            *)
@@ -40,13 +41,17 @@ NextOf(S, s, h) ==
   IF InCall(s, h) THEN <<CallDesc(S, s, h).op, CallDesc(S, s, h).path>> ELSE <<>>
 
 Proj(S, s) == [nodes |-> s.nodes, reg |-> s.reg, queue |-> s.queue, active |-> s.active,
-               sess |-> s.sess, next |-> [h \in HostSet(S) |-> NextOf(S, s, h)]]
+               sess |-> s.sess, next |-> [h \in HostSet(S) |-> NextOf(S, s, h)],
+               linger |-> s.linger]
 
 FiredOf(line) == IF "fired" \in DOMAIN line THEN line.fired ELSE <<>>
 
+(* the host of the line (reap lines have none: any host will do) *)
+HostOf(S, line) == IF "h" \in DOMAIN line THEN line.h ELSE S.hosts[1]
+
 (* the model's step for this line: [ok, st] *)
 Exp(S, pre, line) ==
-  LET h == line.h
+  LET h == HostOf(S, line)
       bad == [ok |-> FALSE, st |-> pre] IN
   CASE line.ev = "submit" ->
          IF CanSubmit(S, pre, h, line.c) THEN [ok |-> TRUE, st |-> SubmitDo(S, pre, h, line.c)] ELSE bad
@@ -73,6 +78,12 @@ Exp(S, pre, line) ==
             /\ pre.sess[h] = line.s
             /\ line.fired \in Orders(ExpireFired(pre, h))
          THEN [ok |-> TRUE, st |-> ExpireDo(S, pre, h, line.fired)] ELSE bad
+    [] line.ev = "crash" ->
+         IF pre.pc[h].ph # "down" /\ pre.sess[h] = line.s
+         THEN [ok |-> TRUE, st |-> CrashDo(S, pre, h)] ELSE bad
+    [] line.ev = "reap" ->
+         IF CanReap(S, pre, line.s, line.fired)
+         THEN [ok |-> TRUE, st |-> ReapDo(S, pre, line.s, line.fired)] ELSE bad
     [] line.ev = "restart" ->
          IF CanRestart(S, pre, h, line.rord) /\ line.s = pre.nsess
          THEN [ok |-> TRUE, st |-> RestartDo(S, pre, h, line.rord)] ELSE bad
@@ -86,20 +97,20 @@ SawOwn(line) == line.op = "get" /\ line.res = "ok" /\ line.seen = line.s
 
 (* the log is followed without the model from here on *)
 Resync(S, pre, line, post) ==
-  LET h == line.h
+  LET h == HostOf(S, line)
       pc == CASE line.ev \in {"end", "restart"} -> IdlePc
-               [] line.ev = "expire" -> [IdlePc EXCEPT !.ph = "down"]
+               [] line.ev \in {"expire", "crash"} -> [IdlePc EXCEPT !.ph = "down"]
                [] line.ev = "begin" -> [IdlePc EXCEPT !.ph = "lost", !.k = line.k, !.c = line.c]
                [] line.ev = "call" -> [IdlePc EXCEPT !.ph = "lost", !.k = line.rk, !.c = line.rc]
                [] OTHER -> pre.pc[h]
       fs == CASE line.ev = "call" -> pre.fs[h] \/ SawForeign(line)
-              [] line.ev \in {"begin", "end", "expire", "restart"} -> FALSE
+              [] line.ev \in {"begin", "end", "expire", "crash", "restart"} -> FALSE
               [] OTHER -> pre.fs[h] IN
   [pre EXCEPT !.nodes = post.nodes, !.reg = post.reg, !.queue = post.queue,
-              !.active = post.active, !.sess = post.sess,
+              !.active = post.active, !.sess = post.sess, !.linger = post.linger,
               !.claimed = [x \in HostSet(S) |-> {q \in pre.claimed[x] : q[1] \in DOMAIN post.nodes}],
               !.watches = {w \in pre.watches : /\ w.p \in DOMAIN post.nodes
-                                               /\ ~(line.ev = "expire" /\ w.h = h)},
+                                               /\ ~(line.ev \in {"expire", "crash"} /\ w.h = h)},
               !.pc[h] = pc,
               !.fs[h] = fs,
               !.order = IF line.ev = "submit" THEN Append(pre.order, line.c) ELSE pre.order,
@@ -164,7 +175,7 @@ Sibling(S, pre, line) ==
         S.inst[c2] = S.inst[line.c] /\ \E h2 \in HostSet(S) : c2 \in pre.active[h2]
 
 Verdict(S, pre, line, post, explained) ==
-  LET h == line.h
+  LET h == HostOf(S, line)
       lost == pre.pc[h].ph = "lost"
       drift == F("drift.step", explained \/ lost)
       sync == E("unsynced", lost) IN
@@ -174,10 +185,11 @@ Verdict(S, pre, line, post, explained) ==
          [fail |-> F("C17.waits", line.k = "create" /\ pre.fs[h] => line.res = "wait")
                    \cup F("C17.ephemeral", StateEph(post)) \cup drift,
           ex |-> sync]
-    [] line.ev = "expire" ->
+    [] line.ev \in {"expire", "reap"} ->
          [fail |-> F("C17.waits", RetriesWait(pre, line, post))
-                   \cup F("C17.ephemeral", StateEph(post)) \cup drift,
-          ex |-> E("fire", line.fired # <<>>) \cup E("expire", TRUE)]
+                   \cup F("C17.ephemeral", StateEph(post))
+                   \cup F("drift.step", explained \/ (line.ev = "expire" /\ lost)),
+          ex |-> E("fire", line.fired # <<>>) \cup E(line.ev, TRUE)]
     [] line.ev = "begin" ->
          [fail |-> F("C17.ephemeral", StateEph(post)) \cup drift,
           ex |-> E("sibling", Sibling(S, pre, line)) \cup E("C17", Sibling(S, pre, line))]
